@@ -31,6 +31,12 @@ theorem loc_inj {proj : Project} {rank : List Nat} (wf : WFacts proj rank) (rx :
     (hS : StaticSite proj S) (hS' : StaticSite proj S') (h : loc proj s S = loc proj s S') : S = S' :=
   relocSite_inj wf rx _ hS hS' h
 
+theorem find?_congr' {α : Type} {p q : α → Bool} : ∀ {l : List α}, (∀ x ∈ l, p x = q x) → l.find? p = l.find? q
+  | [], _ => rfl
+  | x :: xs, h => by
+    simp only [List.find?_cons, h x (List.mem_cons_self ..)]
+    rw [find?_congr' (fun y hy => h y (List.mem_cons_of_mem _ hy))]
+
 theorem loc_congr {proj : Project} {s s' : St} (h : ∀ r ∈ reexportReqs proj, movedB proj s' r = movedB proj s r)
     (S : Site) : loc proj s' S = loc proj s S := by
   obtain ⟨m, cp⟩ := S
@@ -41,7 +47,7 @@ theorem loc_congr {proj : Project} {s s' : St} (h : ∀ r ∈ reexportReqs proj,
     simp only
     have : (reexportReqs proj).find? (fun r => r.1 == m && r.2.1 == n && movedB proj s' r) =
         (reexportReqs proj).find? (fun r => r.1 == m && r.2.1 == n && movedB proj s r) := by
-      apply List.find?_congr
+      apply find?_congr'
       intro r hr
       rw [h r hr]
     rw [this]
@@ -52,7 +58,8 @@ mutual
 /-- every binding statement of a visited body left an entry in the scope's object; a class statement a
 class object (found at the location of its site) whose own body is complete; a re-exporting import its move -/
 def CompleteStmt (proj : Project) (s : St) (S : Site) (ctx : Nat) : Stmt → Prop
-  | .classDef n _ body => HasEntry s ctx n ∧ ∃ c o, path s.reg c = some (loc proj s (S.1, S.2 ++ [n])) ∧
+  | .classDef n _ body => HasEntry s ctx n ∧ StaticSite proj (S.1, S.2 ++ [n]) ∧
+      ∃ c o, path s.reg c = some (loc proj s (S.1, S.2 ++ [n])) ∧
       s.reg.objs[c]? = some o ∧ o.cls = .cls ∧ CompleteStmts proj s (S.1, S.2 ++ [n]) c body
   | .importMod t a => ∀ x ∈ explicitNames (.importMod t a), HasEntry s ctx x
   | .importFrom lvl M n a => HasEntry s ctx (a.getD n) ∧
@@ -86,7 +93,7 @@ theorem Ext.trans {proj : Project} {a b c : St} (h1 : Ext proj a b) (h2 : Ext pr
   obtain ⟨o2, ho2, c2, e2⟩ := h2.objs i o1 ho1
   exact ⟨o2, ho2, c2.trans c1, fun k h => e2 k (e1 k h)⟩
 
-theorem HasEntry.extR {proj : Project} {s s' : St} (h : Ext proj s s') {ctx : Nat} {x : Name} (he : HasEntry s ctx x) :
+theorem hasEntry_ext {proj : Project} {s s' : St} (h : Ext proj s s') {ctx : Nat} {x : Name} (he : HasEntry s ctx x) :
     HasEntry s' ctx x := by
   obtain ⟨o, ho, hx⟩ := he
   obtain ⟨o', ho', _, hc⟩ := h.objs ctx o ho
@@ -94,29 +101,457 @@ theorem HasEntry.extR {proj : Project} {s s' : St} (h : Ext proj s s') {ctx : Na
 
 mutual
 theorem CompleteStmt.ext {proj : Project} {s s' : St} (h : Ext proj s s') :
-    ∀ {S : Site} {ctx : Nat} (st : Stmt), StaticSite proj S → CompleteStmt proj s S ctx st → CompleteStmt proj s' S ctx st
-  | S, ctx, .classDef n bs body, hS, hc => by
+    ∀ {S : Site} {ctx : Nat} (st : Stmt), CompleteStmt proj s S ctx st → CompleteStmt proj s' S ctx st
+  | S, ctx, .classDef n bs body, hc => by
     simp only [CompleteStmt] at hc ⊢
-    obtain ⟨he, c, o, hp, ho, hcl, hb⟩ := hc
+    obtain ⟨he, hst, c, o, hp, ho, hcl, hb⟩ := hc
     obtain ⟨o', ho', hcl', _⟩ := h.objs c o ho
-    -- the class site is static as soon as its body is complete … we only need it for `sites`
-    sorry
-  | S, ctx, .importMod t a, _, hc => by
+    exact ⟨hasEntry_ext h he, hst, c, o', h.sites c _ hp hst, ho', hcl'.trans hcl, CompleteStmts.ext h body hb⟩
+  | S, ctx, .importMod t a, hc => by
     simp only [CompleteStmt] at hc ⊢
-    exact fun x hx => (hc x hx).extR h
-  | S, ctx, .importFrom lvl M n a, _, hc => by
+    exact fun x hx => hasEntry_ext h (hc x hx)
+  | S, ctx, .importFrom lvl M n a, hc => by
     simp only [CompleteStmt] at hc ⊢
-    exact ⟨hc.1.extR h, fun d h0 ht hr => h.moved _ hr (hc.2 d h0 ht hr)⟩
-  | S, ctx, .importStar _ _, _, _ => by simp [CompleteStmt]
-  | S, ctx, .funcDef n, _, hc => by simp only [CompleteStmt] at hc ⊢; exact hc.extR h
-  | S, ctx, .assign n _, _, hc => by simp only [CompleteStmt] at hc ⊢; exact hc.extR h
-  | S, ctx, .allAssign _, _, _ => by simp [CompleteStmt]
+    exact ⟨hasEntry_ext h hc.1, fun d h0 ht hr => h.moved _ hr (hc.2 d h0 ht hr)⟩
+  | S, ctx, .importStar _ _, _ => by simp [CompleteStmt]
+  | S, ctx, .funcDef n, hc => by simp only [CompleteStmt] at hc ⊢; exact hasEntry_ext h hc
+  | S, ctx, .assign n _, hc => by simp only [CompleteStmt] at hc ⊢; exact hasEntry_ext h hc
+  | S, ctx, .allAssign _, _ => by simp [CompleteStmt]
 theorem CompleteStmts.ext {proj : Project} {s s' : St} (h : Ext proj s s') :
-    ∀ {S : Site} {ctx : Nat} (sts : List Stmt), StaticSite proj S → CompleteStmts proj s S ctx sts → CompleteStmts proj s' S ctx sts
-  | _, _, [], _, _ => by simp [CompleteStmts]
-  | S, ctx, st :: rest, hS, hc => by
+    ∀ {S : Site} {ctx : Nat} (sts : List Stmt), CompleteStmts proj s S ctx sts → CompleteStmts proj s' S ctx sts
+  | _, _, [], _ => by simp [CompleteStmts]
+  | S, ctx, st :: rest, hc => by
     simp only [CompleteStmts] at hc ⊢
-    exact ⟨CompleteStmt.ext h st hS hc.1, CompleteStmts.ext h rest hS hc.2⟩
+    exact ⟨CompleteStmt.ext h st hc.1, CompleteStmts.ext h rest hc.2⟩
 end
+
+theorem cbase_ext {proj : Project} {s s' : St} (h : CBase s) (he : Ext proj s s') (hc : s'.cinfo = s.cinfo) : CBase s' := by
+  intro e hm b hb
+  rw [hc] at hm
+  obtain ⟨o, ho, hcl⟩ := h e hm b hb
+  obtain ⟨o', ho', hc', _⟩ := he.objs b o ho
+  exact ⟨o', ho', hc'.trans hcl⟩
+
+/-! ## the invariant -/
+
+/-- **the invariant of reachable, well-behaved states**, with re-export moves -/
+structure PdInv (proj : Project) (s : St) : Prop where
+  reg : Inv s.reg
+  cbase : CBase s
+  lens : s.ps.length = proj.length ∧ s.alls.length = proj.length
+  mods : ∀ m, m < proj.length → ∃ o, s.reg.objs[m]? = some o ∧ path s.reg m = some (pathOf proj m) ∧ o.cls = modCls proj m
+  site : ∀ i o, s.reg.objs[i]? = some o → ∃ S, ObjKind proj S o.cls ∧ path s.reg i = some (loc proj s S)
+  alias : ∀ i o S, s.reg.objs[i]? = some o → path s.reg i = some (loc proj s S) → StaticSite proj S →
+    ∀ x tgt, dget o.aliases x = some tgt → JpdR proj S x tgt
+  cont : ∀ m o, m < proj.length → s.reg.objs[m]? = some o → ∀ x c, dget o.contents x = some c →
+    x ∈ childNames proj m ∨ (∃ st ∈ bodyOf proj m, st.defName = some x) ∨
+    (∃ r ∈ reexportReqs proj, r.2.2.1 = m ∧ r.2.2.2 = x ∧ movedB proj s r = true)
+  alls : ∀ m, m < proj.length → getAll s m = if getPs s m = .unprocessed then none else lastAll (bodyOf proj m)
+  started : ∀ i S, path s.reg i = some (loc proj s S) → StaticSite proj S → S.2 ≠ [] → getPs s S.1 ≠ .unprocessed
+  complete : ∀ m md, proj[m]? = some md → getPs s m = .processed → CompleteStmts proj s (m, []) m md.body
+  movedPs : ∀ r ∈ reexportReqs proj, movedB proj s r = true → getPs s r.1 = .processed ∧ getPs s r.2.2.1 ≠ .unprocessed
+  movedIn : ∀ r ∈ reexportReqs proj, movedB proj s r = true → HasContent s r.2.2.1 r.2.2.2
+
+/-- below a module that is not processed yet nothing has moved -/
+theorem PdInv.loc_eq {proj : Project} {s : St} (hI : PdInv proj s) {S : Site} (h : getPs s S.1 ≠ .processed) :
+    loc proj s S = sitePath proj S :=
+  relocSite_unmoved (fun r hr h1 _ => by
+    cases hm : movedB proj s r with
+    | false => rfl
+    | true => exact absurd (h1 ▸ (hI.movedPs r hr hm).1) h)
+
+/-- `movedB` only looks at one alias entry of the definer -/
+theorem movedB_of_alias {proj : Project} {s s' : St} {r : Req}
+    (h : (s'.reg.objs[r.1]?).map (fun o => dget o.aliases r.2.1) = (s.reg.objs[r.1]?).map (fun o => dget o.aliases r.2.1)) :
+    movedB proj s' r = movedB proj s r := by
+  unfold movedB
+  cases h1 : s'.reg.objs[r.1]? <;> cases h2 : s.reg.objs[r.1]? <;> simp_all
+
+/-- a name that an import statement of the scope binds is not a re-exported definition of that module -/
+theorem import_name_not_req {proj : Project} {rank : List Nat} (wf : WFacts proj rank) (rx : RxFacts proj) {S : Site}
+    {b : List Stmt} {st : Stmt} {k : Name} (hb : siteBody proj S = some b) (hst : st ∈ b)
+    (hk : k ∈ stmtNamesR proj rank S st) (hd : st.defName = none) :
+    ∀ r ∈ reexportReqs proj, r.1 = S.1 → S.2 = [] → r.2.1 ≠ k := by
+  intro r hr h1 h2 hne
+  obtain ⟨m, cp⟩ := S
+  simp only at h1 h2; subst h1; subst h2
+  obtain ⟨st', hst', hd', _⟩ := definesTop_spec (rx.reqOk r hr).2.2.1
+  have hbm := siteBody_mod hb; subst hbm
+  have := same_stmt wf hb hst hst' hk (by rw [← hne]; exact stmtNames_of_explicit (defName_explicit hd'))
+  subst this
+  rw [hd] at hd'; cases hd'
+
+/-! ## the visiting context -/
+
+/-- `ctx` is the object of scope `S` (of module `mod`, which is being processed), whose body is `full`;
+every module that is being processed has at least the rank of `mod` (the call stack descends in rank) -/
+structure Ctx (proj : Project) (rank : List Nat) (s : St) (mod ctx : Nat) (S : Site) (full : List Stmt) : Prop where
+  hmod : mod < proj.length
+  hS1 : S.1 = mod
+  body : siteBody proj S = some full
+  stat : StaticSite proj S
+  pathc : path s.reg ctx = some (sitePath proj S)
+  clsc : ∃ o, s.reg.objs[ctx]? = some o ∧ ((S.2 = [] ∧ isModuleCls o.cls = true) ∨ (S.2 ≠ [] ∧ o.cls = .cls))
+  ctxmod : S.2 = [] → ctx = mod
+  ps : getPs s mod = .processing
+  low : ∀ u, getPs s u = .processing → rankOf rank mod ≤ rankOf rank u
+
+theorem Ctx.locc {proj : Project} {rank : List Nat} {s : St} {mod ctx : Nat} {S : Site} {full : List Stmt}
+    (hI : PdInv proj s) (h : Ctx proj rank s mod ctx S full) : loc proj s S = sitePath proj S :=
+  hI.loc_eq (by rw [h.hS1, h.ps]; simp)
+
+theorem Ctx.ext {proj : Project} {rank : List Nat} {s s' : St} {mod ctx : Nat} {S : Site} {full : List Stmt}
+    (h : Ctx proj rank s mod ctx S full) (hI : PdInv proj s) (hI' : PdInv proj s') (he : Ext proj s s') :
+    Ctx proj rank s' mod ctx S full := by
+  obtain ⟨o, ho, hc⟩ := h.clsc
+  obtain ⟨o', ho', hc', _⟩ := he.objs ctx o ho
+  have hps' : getPs s' mod = .processing := (he.ps mod).1 h.ps
+  refine ⟨h.hmod, h.hS1, h.body, h.stat, ?_, ⟨o', ho', by rw [hc']; exact hc⟩, h.ctxmod, hps', ?_⟩
+  · have := he.sites ctx S (by rw [h.locc hI]; exact h.pathc) h.stat
+    rw [hI'.loc_eq (by rw [h.hS1, hps']; simp)] at this
+    exact this
+  · intro u hu
+    cases hpu : getPs s u with
+    | unprocessed => exact absurd hu ((he.ps u).2.2 hpu)
+    | processing => exact h.low u hpu
+    | processed => rw [(he.ps u).2.1 hpu] at hu; cases hu
+
+/-! ## frames (for the clean-run part): which `contents` keys a step can add -/
+
+/-- started objects gain no key of `contents`, except that `ctx` may gain the keys `names` -/
+def FrameX (proj : Project) (ctx : Option Nat) (names : List Name) (s s' : St) : Prop :=
+  ∀ (i : Nat) (o : Obj), s.reg.objs[i]? = some o → Prot proj s i → ∃ o' : Obj, s'.reg.objs[i]? = some o' ∧
+    ∀ k, (some i = ctx → k ∉ names) → dget o.contents k = none → dget o'.contents k = none
+
+theorem FrameX.refl (proj : Project) (ctx : Option Nat) (names : List Name) (s : St) : FrameX proj ctx names s s :=
+  fun _ o ho _ => ⟨o, ho, fun _ _ h => h⟩
+
+theorem FrameX.trans {proj : Project} {ctx : Option Nat} {l1 l2 : List Name} {a b c : St}
+    (h1 : FrameX proj ctx l1 a b) (hp : PsRel a b) (h2 : FrameX proj ctx l2 b c) : FrameX proj ctx (l1 ++ l2) a c := by
+  intro i o ho hpr
+  obtain ⟨o1, ho1, k1⟩ := h1 i o ho hpr
+  obtain ⟨o2, ho2, k2⟩ := h2 i o1 ho1 (hpr.ext hp)
+  refine ⟨o2, ho2, fun k hk hd => ?_⟩
+  have hk1 : some i = ctx → k ∉ l1 := fun h hin => hk h (List.mem_append_left _ hin)
+  have hk2 : some i = ctx → k ∉ l2 := fun h hin => hk h (List.mem_append_right _ hin)
+  exact k2 k hk2 (k1 k hk1 hd)
+
+theorem FrameX.weaken {proj : Project} {ctx : Option Nat} {l : List Name} {a b : St}
+    (h : FrameX proj none [] a b) : FrameX proj ctx l a b := by
+  intro i o ho hpr
+  obtain ⟨o1, ho1, k1⟩ := h i o ho hpr
+  exact ⟨o1, ho1, fun k _ hd => k1 k (fun h => by cases h) hd⟩
+
+theorem FrameX.mono {proj : Project} {ctx : Option Nat} {l l' : List Name} {a b : St}
+    (h : FrameX proj ctx l a b) (hs : ∀ x ∈ l, x ∈ l') : FrameX proj ctx l' a b := by
+  intro i o ho hpr
+  obtain ⟨o1, ho1, k1⟩ := h i o ho hpr
+  exact ⟨o1, ho1, fun k hk hd => k1 k (fun he hx => hk he (hs k hx)) hd⟩
+
+/-- the statements still to come have left no entry in `contents` of the scope's object yet -/
+def Pending (s : St) (ctx : Nat) (sts : List Stmt) : Prop :=
+  ∀ o, s.reg.objs[ctx]? = some o → ∀ st ∈ sts, ∀ n ∈ explicitNames st, dget o.contents n = none
+
+/-! ## `setAlias` -/
+
+theorem setAlias_ok {proj : Project} {rank : List Nat} (wf : WFacts proj rank) (rx : RxFacts proj) {s : St}
+    (hI : PdInv proj s) {ctx : Nat} {k : Name} {v : Path} {S : Site}
+    (hp : path s.reg ctx = some (loc proj s S)) (hS : StaticSite proj S) (hj : JpdR proj S k v)
+    (hk : ∀ r ∈ reexportReqs proj, r.1 = S.1 → S.2 = [] → r.2.1 ≠ k) :
+    PdInv proj (setAlias s ctx k v) ∧ Ext proj s (setAlias s ctx k v) := by
+  -- no move is forged or undone
+  have hmv : ∀ r ∈ reexportReqs proj, movedB proj (setAlias s ctx k v) r = movedB proj s r := by
+    intro r hr
+    apply movedB_of_alias
+    by_cases h : r.1 = ctx
+    · rw [h, setAlias_get_eq]
+      cases ho : s.reg.objs[ctx]? with
+      | none => rfl
+      | some o =>
+        simp only [Option.map_some, Option.some.injEq]
+        by_cases hkn : r.2.1 = k
+        · exfalso
+          have hd := req_definer_lt hr
+          obtain ⟨om, hom, hpm, _⟩ := hI.mods r.1 hd
+          have hSe : S = (r.1, []) := by
+            refine loc_inj wf rx s hS ⟨hd, Or.inl rfl⟩ ?_
+            rw [loc_mod]
+            rw [h, hp] at hpm; injection hpm with hpm; rw [hpm, h]
+          exact hk r hr (by rw [hSe]) (by rw [hSe]) hkn
+        · rw [dset_get_other _ _ _ _ hkn]
+    · rw [setAlias_get_ne h]
+  have hloc : ∀ S', loc proj (setAlias s ctx k v) S' = loc proj s S' := loc_congr hmv
+  have hext : Ext proj s (setAlias s ctx k v) := by
+    refine ⟨fun i o ho => ?_, fun i S' hp' _ => by rw [setAlias_path, hloc]; exact hp', PsRel.refl _,
+      fun r hr h => by rw [hmv r hr]; exact h⟩
+    by_cases h : i = ctx
+    · subst h
+      refine ⟨{ o with aliases := dset o.aliases k v }, by rw [setAlias_get_eq, ho]; rfl, rfl, ?_⟩
+      intro k' hk'
+      rcases hk' with hk' | hk'
+      · exact Or.inl hk'
+      · right
+        by_cases hkk : k' = k
+        · subst hkk; rw [dset_get_same]; simp
+        · rw [dset_get_other _ _ _ _ hkk]; exact hk'
+    · exact ⟨o, by rw [setAlias_get_ne h]; exact ho, rfl, fun _ h => h⟩
+  refine ⟨?_, hext⟩
+  refine
+    { reg := inv_congr hI.reg (modify_aliases_agree _ _ _), cbase := cbase_ext hI.cbase hext rfl, lens := hI.lens,
+      mods := ?_, site := ?_, alias := ?_, cont := ?_, alls := hI.alls, started := ?_, complete := ?_, movedPs := ?_,
+      movedIn := ?_ }
+  rotate_right
+  · intro r hr hm
+    rw [hmv r hr] at hm
+    obtain ⟨o, c, ho, hd⟩ := hI.movedIn r hr hm
+    by_cases h : r.2.2.1 = ctx
+    · exact ⟨{ o with aliases := dset o.aliases k v }, c, by rw [h, setAlias_get_eq, ← h, ho]; rfl, hd⟩
+    · exact ⟨o, c, by rw [setAlias_get_ne h]; exact ho, hd⟩
+  · intro m hm
+    obtain ⟨o, ho, hpm, hc⟩ := hI.mods m hm
+    obtain ⟨o', ho', hc', _⟩ := hext.objs m o ho
+    exact ⟨o', ho', by rw [setAlias_path]; exact hpm, hc'.trans hc⟩
+  · intro i o' ho'
+    obtain ⟨o, ho, hcl⟩ : ∃ o, s.reg.objs[i]? = some o ∧ o'.cls = o.cls := by
+      by_cases h : i = ctx
+      · subst h
+        rw [setAlias_get_eq] at ho'
+        cases ho : s.reg.objs[i]? with
+        | none => rw [ho] at ho'; simp at ho'
+        | some o => rw [ho] at ho'; simp only [Option.map_some, Option.some.injEq] at ho'; subst ho'; exact ⟨o, rfl, rfl⟩
+      · rw [setAlias_get_ne h] at ho'; exact ⟨o', ho', rfl⟩
+    obtain ⟨S', hk', hp'⟩ := hI.site i o ho
+    exact ⟨S', hcl ▸ hk', by rw [setAlias_path, hloc]; exact hp'⟩
+  · intro i o' S' ho' hp' hS' x tgt hx
+    rw [setAlias_path, hloc] at hp'
+    by_cases h : i = ctx
+    · subst h
+      rw [setAlias_get_eq] at ho'
+      cases ho : s.reg.objs[i]? with
+      | none => rw [ho] at ho'; simp at ho'
+      | some o =>
+        rw [ho] at ho'; simp only [Option.map_some, Option.some.injEq] at ho'; subst ho'
+        simp only at hx
+        by_cases hkx : x = k
+        · subst hkx
+          rw [dset_get_same] at hx; injection hx with hx; subst hx
+          have : S' = S := loc_inj wf rx s hS' hS (by rw [hp] at hp'; injection hp' with hp'; exact hp'.symm)
+          subst this; exact hj
+        · rw [dset_get_other _ _ _ _ hkx] at hx
+          exact hI.alias i o S' ho hp' hS' x tgt hx
+    · rw [setAlias_get_ne h] at ho'
+      exact hI.alias i o' S' ho' hp' hS' x tgt hx
+  · intro m o' hm ho' x c hx
+    have : ∃ o, s.reg.objs[m]? = some o ∧ dget o.contents x = some c := by
+      by_cases h : m = ctx
+      · subst h
+        rw [setAlias_get_eq] at ho'
+        cases ho : s.reg.objs[m]? with
+        | none => rw [ho] at ho'; simp at ho'
+        | some o => rw [ho] at ho'; simp only [Option.map_some, Option.some.injEq] at ho'; subst ho'; exact ⟨o, rfl, hx⟩
+      · rw [setAlias_get_ne h] at ho'; exact ⟨o', ho', hx⟩
+    obtain ⟨o, ho, hx'⟩ := this
+    rcases hI.cont m o hm ho x c hx' with h | h | ⟨r, hr, h1, h2, h3⟩
+    · exact Or.inl h
+    · exact Or.inr (Or.inl h)
+    · exact Or.inr (Or.inr ⟨r, hr, h1, h2, by rw [hmv r hr]; exact h3⟩)
+  · intro i S' hp' hS' hne
+    rw [setAlias_path, hloc] at hp'
+    exact hI.started i S' hp' hS' hne
+  · intro m md hm hps
+    exact CompleteStmts.ext hext _ (hI.complete m md hm hps)
+  · intro r hr hm
+    rw [hmv r hr] at hm
+    exact hI.movedPs r hr hm
+
+theorem setAlias_frame (proj : Project) (c : Option Nat) (l : List Name) (s : St) (ctx : Nat) (k : Name) (v : Path) :
+    FrameX proj c l s (setAlias s ctx k v) := by
+  intro i o ho _
+  by_cases h : i = ctx
+  · subst h
+    exact ⟨{ o with aliases := dset o.aliases k v }, by rw [setAlias_get_eq, ho]; rfl, fun _ _ h => h⟩
+  · exact ⟨o, by rw [setAlias_get_ne h]; exact ho, fun _ _ h => h⟩
+
+/-! ## `addObj` -/
+
+theorem addObj_ok {proj : Project} {rank : List Nat} (wf : WFacts proj rank) (rx : RxFacts proj) {s : St}
+    (hI : PdInv proj s) (hbad : s.bad = false)
+    {c : Cls} {name : Name} {ctx : Nat} {S : Site} {full : List Stmt} {st : Stmt}
+    (hp : path s.reg ctx = some (sitePath proj S)) (hS : siteBody proj S = some full) (hst : st ∈ full)
+    (hk : stKind st = some (name, c)) (hps : getPs s S.1 = .processing) (hSt : StaticSite proj S)
+    {o0 : Obj} (ho0 : s.reg.objs[ctx]? = some o0) (hno : dget o0.contents name = none) :
+    (addObj s c name ctx).bad = false ∧
+    PdInv proj (addObj s c name ctx) ∧ Ext proj s (addObj s c name ctx) ∧
+    (addObj s c name ctx).reg.objs.length = s.reg.objs.length + 1 ∧
+    (addObj s c name ctx).reg.objs[s.reg.objs.length]? = some (⟨name, some ctx, c, [], []⟩ : Obj) ∧
+    path (addObj s c name ctx).reg s.reg.objs.length = some (sitePath proj (S.1, S.2 ++ [name])) ∧
+    (∃ po, (addObj s c name ctx).reg.objs[ctx]? = some po ∧ dget po.contents name = some s.reg.objs.length) ∧
+    (addObj s c name ctx).ps = s.ps ∧ (addObj s c name ctx).alls = s.alls ∧ (addObj s c name ctx).cinfo = s.cinfo ∧
+    FrameX proj (some ctx) [name] s (addObj s c name ctx) := by
+  have hf := fresh_of_not_content hI.reg ho0 hp (sitePath_ne_nil wf hSt) (wf.namesOk hS hst (stKind_defName hk)) hno
+  have hb : (addObj s c name ctx).bad = false := addObj_clean (c := c) hbad hp hf
+  have hframe : FrameX proj (some ctx) [name] s (addObj s c name ctx) := by
+    obtain ⟨he, _⟩ := addObj_spec hp hb
+    rw [he]
+    intro i o ho _
+    refine ⟨_, objsAfterAdd_get_old (path_lt hp) ho, fun k hk hd => ?_⟩
+    split
+    · rename_i hic
+      simp only
+      have : k ≠ name := by
+        intro h; exact hk (by rw [hic]) (by simp [h])
+      rw [dset_get_other _ _ _ _ this]; exact hd
+    · exact hd
+  refine ⟨hb, ?_⟩
+  obtain ⟨he, hok⟩ := addObj_spec hp hb
+  have hlt := path_lt hp
+  have hinv : Inv (addObj s c name ctx).reg := by rw [he]; exact addObject_inv hI.reg hok
+  have hframe' := hframe
+  rw [he] at hframe' ⊢
+  generalize hs' : ({ s with reg := ⟨objsAfterAdd s.reg c name ctx, s.reg.all ++ [(sitePath proj S ++ [name], s.reg.objs.length)],
+      s.reg.roots⟩ } : St) = s' at hframe' ⊢
+  have hreg' : s'.reg = ⟨objsAfterAdd s.reg c name ctx, s.reg.all ++ [(sitePath proj S ++ [name], s.reg.objs.length)],
+      s.reg.roots⟩ := by rw [← hs']
+  have hps' : ∀ t, getPs s' t = getPs s t := fun t => by rw [← hs']; rfl
+  have hall' : ∀ t, getAll s' t = getAll s t := fun t => by rw [← hs']; rfl
+  have hnewpath : path s'.reg s.reg.objs.length = some (sitePath proj (S.1, S.2 ++ [name])) := by
+    rw [hreg', path_afterAdd_new hp]; simp [sitePath]
+  have hold : ∀ i o, s.reg.objs[i]? = some o → s'.reg.objs[i]? =
+      some (if i = ctx then { o with contents := dset o.contents name s.reg.objs.length } else o) :=
+    fun i o ho => by rw [hreg']; exact objsAfterAdd_get_old hlt ho
+  have hnew : s'.reg.objs[s.reg.objs.length]? = some (⟨name, some ctx, c, [], []⟩ : Obj) := by
+    rw [hreg']; exact objsAfterAdd_get_new hlt
+  have hlen : s'.reg.objs.length = s.reg.objs.length + 1 := by rw [hreg']; simp [objsAfterAdd_length]
+  have hcases : ∀ i o', s'.reg.objs[i]? = some o' →
+      (i = s.reg.objs.length ∧ o' = ⟨name, some ctx, c, [], []⟩) ∨
+      (∃ o, s.reg.objs[i]? = some o ∧ o' = (if i = ctx then { o with contents := dset o.contents name s.reg.objs.length } else o)) := by
+    intro i o' ho'
+    have hil := (List.getElem?_eq_some_iff.1 ho').1
+    rw [hlen] at hil
+    by_cases hi : i = s.reg.objs.length
+    · subst hi; rw [hnew] at ho'; injection ho' with ho'; exact Or.inl ⟨rfl, ho'.symm⟩
+    · have hi' : i < s.reg.objs.length := by omega
+      have ho : s.reg.objs[i]? = some s.reg.objs[i] := by simp [hi']
+      rw [hold i _ ho] at ho'; injection ho' with ho'
+      exact Or.inr ⟨_, ho, ho'.symm⟩
+  have hpold : ∀ i k, path s.reg i = some k → path s'.reg i = some k :=
+    fun i k hk => by rw [hreg']; exact path_afterAdd_old hk
+  have hpback : ∀ i k, i < s.reg.objs.length → path s'.reg i = some k → path s.reg i = some k := by
+    intro i k hi hk
+    obtain ⟨k0, hk0⟩ := hI.reg.full i hi
+    have h1 := hI.reg.reg.keys k0 i hk0
+    rw [hpold i k0 h1] at hk; injection hk with hk; subst hk; exact h1
+  -- no move is forged or undone
+  have hmv : ∀ r ∈ reexportReqs proj, movedB proj s' r = movedB proj s r := by
+    intro r hr
+    apply movedB_of_alias
+    obtain ⟨om, hom, _, _⟩ := hI.mods r.1 (req_definer_lt hr)
+    rw [hold _ _ hom, hom]
+    simp only [Option.map_some, Option.some.injEq]
+    split <;> rfl
+  have hloc : ∀ S', loc proj s' S' = loc proj s S' := loc_congr hmv
+  have hSproc : getPs s S.1 ≠ .processed := by rw [hps]; simp
+  have hlocnew : loc proj s' (S.1, S.2 ++ [name]) = sitePath proj (S.1, S.2 ++ [name]) := by
+    rw [hloc]; exact hI.loc_eq (S := (S.1, S.2 ++ [name])) hSproc
+  have hext : Ext proj s s' := by
+    refine ⟨fun i o ho => ⟨_, hold i o ho, ?_, ?_⟩, fun i S' hp' _ => by rw [hloc]; exact hpold i _ hp',
+      fun t => by rw [hps' t]; exact PsRel.refl s t, fun r hr h => by rw [hmv r hr]; exact h⟩
+    · split <;> rfl
+    · intro k' hk'
+      split
+      · simp only
+        rcases hk' with hk' | hk'
+        · left
+          by_cases hkn : k' = name
+          · subst hkn; rw [dset_get_same]; simp
+          · rw [dset_get_other _ _ _ _ hkn]; exact hk'
+        · exact Or.inr hk'
+      · exact hk'
+  refine ⟨?_, hext, hlen, hnew, hnewpath, ?_, by rw [← hs'], by rw [← hs'], by rw [← hs'], hframe'⟩
+  · refine
+      { reg := by rw [he] at hinv; rw [hreg']; exact hinv, cbase := cbase_ext hI.cbase hext (by rw [← hs']),
+        lens := by rw [← hs']; exact hI.lens, mods := ?_, site := ?_,
+        alias := ?_, cont := ?_, alls := ?_, started := ?_, complete := ?_, movedPs := ?_, movedIn := ?_ }
+    rotate_right
+    · intro r hr hm
+      rw [hmv r hr] at hm
+      obtain ⟨o, c', ho, hd⟩ := hI.movedIn r hr hm
+      have : ∃ c'', dget (if r.2.2.1 = ctx then { o with contents := dset o.contents name s.reg.objs.length } else o).contents
+          r.2.2.2 = some c'' := by
+        split
+        · simp only
+          by_cases hkn : r.2.2.2 = name
+          · exact ⟨_, by rw [hkn, dset_get_same]⟩
+          · exact ⟨c', by rw [dset_get_other _ _ _ _ hkn]; exact hd⟩
+        · exact ⟨c', hd⟩
+      obtain ⟨c'', hc''⟩ := this
+      exact ⟨_, c'', hold _ o ho, hc''⟩
+    · intro m hm
+      obtain ⟨o, ho, hpm, hc⟩ := hI.mods m hm
+      obtain ⟨o', ho', hc', _⟩ := hext.objs m o ho
+      exact ⟨o', ho', hpold m _ hpm, hc'.trans hc⟩
+    · intro i o' ho'
+      rcases hcases i o' ho' with ⟨rfl, rfl⟩ | ⟨o, ho, rfl⟩
+      · exact ⟨(S.1, S.2 ++ [name]), ObjKind.dfn hS hst hk, by rw [hlocnew]; exact hnewpath⟩
+      · obtain ⟨S', hk', hp'⟩ := hI.site i o ho
+        refine ⟨S', ?_, by rw [hloc]; exact hpold i _ hp'⟩
+        split <;> exact hk'
+    · intro i o' S' ho' hp' hS' x tgt hx
+      rw [hloc] at hp'
+      rcases hcases i o' ho' with ⟨rfl, rfl⟩ | ⟨o, ho, rfl⟩
+      · simp [dget] at hx
+      · have hx' : dget o.aliases x = some tgt := by split at hx <;> exact hx
+        exact hI.alias i o S' ho (hpback i _ (List.getElem?_eq_some_iff.1 ho).1 hp') hS' x tgt hx'
+    · intro m o' hm ho' x c' hx
+      have hback : ∀ o, s.reg.objs[m]? = some o → dget o.contents x = some c' →
+          x ∈ childNames proj m ∨ (∃ st ∈ bodyOf proj m, st.defName = some x) ∨
+          (∃ r ∈ reexportReqs proj, r.2.2.1 = m ∧ r.2.2.2 = x ∧ movedB proj s' r = true) := by
+        intro o ho hx'
+        rcases hI.cont m o hm ho x c' hx' with h | h | ⟨r, hr, h1, h2, h3⟩
+        · exact Or.inl h
+        · exact Or.inr (Or.inl h)
+        · exact Or.inr (Or.inr ⟨r, hr, h1, h2, by rw [hmv r hr]; exact h3⟩)
+      rcases hcases m o' ho' with ⟨rfl, rfl⟩ | ⟨o, ho, rfl⟩
+      · simp [dget] at hx
+      · split at hx
+        · rename_i hmc; subst hmc
+          simp only at hx
+          by_cases hxn : x = name
+          · subst hxn
+            right; left
+            obtain ⟨om, _, hpm, _⟩ := hI.mods m hm
+            have : S = (m, []) := site_unique wf hSt ⟨hm, Or.inl rfl⟩ (by
+              rw [hpm] at hp; injection hp with hp; simpa [sitePath] using hp.symm)
+            subst this
+            rw [← siteBody_mod hS]
+            exact ⟨st, hst, stKind_defName hk⟩
+          · rw [dset_get_other _ _ _ _ hxn] at hx
+            exact hback o ho hx
+        · exact hback o ho hx
+    · intro m hm
+      rw [hall', hps']; exact hI.alls m hm
+    · intro i S' hp' hS' hne
+      rw [hps']
+      rw [hloc] at hp'
+      by_cases hi : i < s.reg.objs.length
+      · exact hI.started i S' (hpback i _ hi hp') hS' hne
+      · have hil : i < s'.reg.objs.length := path_lt hp'
+        rw [hlen] at hil
+        have : i = s.reg.objs.length := by omega
+        subst this
+        rw [hnewpath] at hp'; injection hp' with hp'
+        have : S' = (S.1, S.2 ++ [name]) := by
+          refine loc_inj wf rx s hS' (ObjKind.dfn hS hst hk).static ?_
+          rw [← hp']; exact (hI.loc_eq (S := (S.1, S.2 ++ [name])) hSproc).symm
+        subst this; simp only; rw [hps]; simp
+    · intro m md hm hps''
+      rw [hps'] at hps''
+      exact CompleteStmts.ext hext _ (hI.complete m md hm hps'')
+    · intro r hr hm
+      rw [hmv r hr] at hm
+      rw [hps', hps']
+      exact hI.movedPs r hr hm
+  · refine ⟨_, hold ctx o0 ho0, ?_⟩
+    simp [dset_get_same]
 
 end Imports.Rx
